@@ -22,7 +22,8 @@ def run_case(c):
     from nessai.evidence import _NSIntegralState
     from nessai.posterior import compute_weights
 
-    mode = c["mode"]
+    # the mode as the caller spells it ("logt", "LogT", "T", ...: the library lower-cases); the model gets c["mode"]
+    mode = c.get("spelling") or c["mode"]
     ls = [float(x) for x in c["ls"]]
     ns = [int(n) for n in c["ns"]]
     out = {}
